@@ -154,6 +154,72 @@ fn run_loop(
     (r.map(|p| p.len()).map_err(|e| e.0), o)
 }
 
+/// the real loop with the outflow writing into `out`: what was forwarded survives a panic of a plugin (the panic
+/// unwinds plugins_process_msgs exactly as it unwinds the plugin thread of `adlt convert` / `adlt remote`)
+fn run_loop_into(msgs: Vec<DltMessage>, plugins: Vec<Box<dyn Plugin + Send>>, out: &Arc<Mutex<Vec<DltMessage>>>) -> Result<usize, DltMessage> {
+    let (tx, rx) = std::sync::mpsc::channel();
+    for m in msgs {
+        tx.send(m).unwrap();
+    }
+    drop(tx);
+    let r = plugins_process_msgs(
+        rx,
+        &|m| {
+            out.lock().unwrap_or_else(|e| e.into_inner()).push(m);
+            Ok(())
+        },
+        plugins,
+    );
+    r.map(|p| p.len()).map_err(|e| e.0)
+}
+
+fn text_of(m: &DltMessage) -> String {
+    let m2 = m.clone();
+    match catch(std::panic::AssertUnwindSafe(move || m2.payload_as_text().map(|c| c.into_owned()))) {
+        Ok(Ok(t)) => t,
+        Ok(Err(_)) => "<no text>".to_string(),
+        Err(_) => "<payload_as_text panics>".to_string(),
+    }
+}
+
+/// a plugin panicked: the loop (= the plugin thread) is dead.  Says which message killed it and what was lost.
+fn death_detail(ins: &[(DltMessage, bool)], out: &Arc<Mutex<Vec<DltMessage>>>, panic: &str) -> String {
+    let o = out.lock().unwrap_or_else(|e| e.into_inner());
+    let mut j = 0usize;
+    let mut fatal: Option<usize> = None;
+    let mut first_missing: Option<usize> = None;
+    for (k, (m, droppable)) in ins.iter().enumerate() {
+        if j < o.len() && o[j].index == m.index {
+            j += 1;
+        } else {
+            first_missing = first_missing.or(Some(k));
+            if !*droppable {
+                fatal = Some(k);
+                break;
+            }
+        }
+    }
+    let fatal = fatal.or(first_missing);
+    match fatal {
+        Some(k) => {
+            let m = &ins[k].0;
+            format!(
+                "plugin thread dead ({}): {} of {} messages forwarded, message #{} (ecu {:?} apid {:?} ctid {:?}) and the {} after it are lost; text of the fatal message: {:?}",
+                panic,
+                o.len(),
+                ins.len(),
+                m.index,
+                m.ecu,
+                m.apid(),
+                m.ctid(),
+                ins.len() - k - 1,
+                text_of(m)
+            )
+        }
+        None => format!("plugin thread dead ({}) after the last message", panic),
+    }
+}
+
 // ------------------------------------------------------------------------------------------------ frame oracle
 /// what a decoding plugin must keep (everything but text, a missing extended header and — allow_ts — the timestamp)
 fn frame_violation(allow_ts: bool, a: &DltMessage, b: &DltMessage) -> Option<String> {
@@ -1064,8 +1130,24 @@ enum Plug {
     Can,
     Muniic,
     Rewrite,
+    /// rewrite rules of the harness (REWRITE_CUSTOM[k]): optional groups, chained rules, unknown group names
+    RewriteCustom(u8),
     /// (keepFLDA, restrict to apid FTA / ctid FTC)
     FileTransfer(bool, bool),
+}
+
+/// rewrite configurations beside /repo/tests/rewrite.cfg: (filter, payloadRegex) per rule
+const REWRITE_CUSTOM: [&[(&str, &str, &str)]; 3] = [
+    // both groups optional: `captures.get(idx)` is None for a group that did not take part
+    &[("apid", "SYS", r"^(?:T=(?<timeStamp>[0-9.eE+-]+))?(?: msg=(?<text>.*))?$")],
+    // two rules in a row: the first rewrites the text the second one reads
+    &[("ctid", "JOUR", r"^pre:(?<text>.*)$"), ("ctid", "JOUR", r"(?<text>.*?)(?: at (?<timeStamp>\d+(?:\.\d+)?))?$")],
+    // a group name the plugin does not know, a look-ahead, an optional time stamp
+    &[("apid", "SYS", r"^(?<other>[a-z]+:)?(?=.*[0-9])(?<text>.+?)(?: at (?<timeStamp>\d+\.\d+))?$")],
+];
+
+fn has_rewrite(chain: &[Plug]) -> bool {
+    chain.iter().any(|p| matches!(p, Plug::Rewrite | Plug::RewriteCustom(_)))
 }
 impl Plug {
     fn json(&self) -> Value {
@@ -1075,6 +1157,7 @@ impl Plug {
             Plug::Can => json!({"kind": "CAN"}),
             Plug::Muniic => json!({"kind": "Muniic"}),
             Plug::Rewrite => json!({"kind": "Rewrite"}),
+            Plug::RewriteCustom(k) => json!({"kind": "RewriteCustom", "k": k}),
             Plug::FileTransfer(k, f) => json!({"kind": "FileTransfer", "keep": k, "filter": f}),
         }
     }
@@ -1085,6 +1168,7 @@ impl Plug {
             "CAN" => Plug::Can,
             "Muniic" => Plug::Muniic,
             "Rewrite" => Plug::Rewrite,
+            "RewriteCustom" => Plug::RewriteCustom(v["k"].as_u64().unwrap() as u8),
             "FileTransfer" => Plug::FileTransfer(v["keep"].as_bool().unwrap(), v["filter"].as_bool().unwrap()),
             x => panic!("unknown plugin {}", x),
         }
@@ -1096,6 +1180,7 @@ impl Plug {
             Plug::Can => "can",
             Plug::Muniic => "muniic",
             Plug::Rewrite => "rewrite",
+            Plug::RewriteCustom(_) => "rewrite_custom",
             Plug::FileTransfer(true, _) => "ft_keep",
             Plug::FileTransfer(false, _) => "ft_drop",
         }
@@ -1109,6 +1194,18 @@ impl Plug {
             Plug::Can => json!({"name": "CAN", "fibexDir": tests}),
             Plug::Muniic => json!({"name": "Muniic", "jsonDir": format!("{}/muniic", tests)}),
             Plug::Rewrite => serde_json::from_slice(&std::fs::read(format!("{}/rewrite.cfg", tests)).expect("rewrite.cfg")).expect("rewrite.cfg json"),
+            Plug::RewriteCustom(k) => {
+                let rules: Vec<Value> = REWRITE_CUSTOM[*k as usize % REWRITE_CUSTOM.len()]
+                    .iter()
+                    .enumerate()
+                    .map(|(i, (fk, fv, re))| {
+                        let mut f = serde_json::Map::new();
+                        f.insert(fk.to_string(), json!(fv));
+                        json!({"name": format!("rule{}", i), "filter": f, "payloadRegex": re})
+                    })
+                    .collect();
+                json!({"name": "Rewrite", "enabled": true, "rewrites": rules})
+            }
             Plug::FileTransfer(keep, filter) => {
                 if *filter {
                     json!({"name": "FileTransfer", "allowSave": false, "keepFLDA": keep, "apid": "FTA", "ctid": "FTC"})
@@ -1218,19 +1315,22 @@ fn scenario_tags(ins: &[DltMessage], mtags: &[&'static str], outs: &[DltMessage]
 }
 
 fn record_frame(sink: &mut Sink, chain: Vec<Plug>, msgs: Vec<DltMessage>, mtags: Vec<&'static str>) {
-    let allow_ts = chain.contains(&Plug::Rewrite);
+    let allow_ts = has_rewrite(&chain);
     let ins: Vec<(DltMessage, bool)> = msgs.iter().map(|m| (m.clone(), droppable(&chain, m))).collect();
     let chain2 = chain.clone();
-    let r = catch_loc(move || {
+    let shared: Arc<Mutex<Vec<DltMessage>>> = Arc::new(Mutex::new(vec![]));
+    let shared2 = shared.clone();
+    let r = catch_loc(std::panic::AssertUnwindSafe(move || {
         let plugins = build_plugins(&chain2)?;
         let n = plugins.len();
-        let (res, outs) = run_loop(msgs, plugins, None);
+        let res = run_loop_into(msgs, plugins, &shared2);
+        let outs = shared2.lock().unwrap().clone();
         match res {
             Ok(k) if k == n => Ok(outs),
             Ok(k) => Err(format!("{} of {} plugins returned", k, n)),
             Err(_) => Err("outflow error".to_string()),
         }
-    });
+    }));
     let fail = |c: &str, d: String| Verdict::Fail { clause: c.into(), detail: d };
     let mut tags = vec!["frame".to_string(), format!("chain_len{}", chain.len())];
     for p in &chain {
@@ -1240,7 +1340,7 @@ fn record_frame(sink: &mut Sink, chain: Vec<Plug>, msgs: Vec<DltMessage>, mtags:
         tags.push(format!("msg_{}", t));
     }
     let (obs, verdict) = match &r {
-        Err(e) => (O::T(vec![O::L(1)]), fail("decoders_no_panic", e.clone())),
+        Err(e) => (O::T(vec![O::L(1)]), fail("decoders_no_panic", death_detail(&ins, &shared, e))),
         Ok(Err(e)) => (O::T(vec![O::L(2)]), fail("chain_runs", e.clone())),
         Ok(Ok(outs)) => {
             let v = frame_oracle(allow_ts, &ins, outs);
@@ -1383,7 +1483,7 @@ impl Plugin for Spy {
                 (Some(t), true) => format!("(CanOk {})", cnums(t.as_bytes())),
                 _ => "(CanErr [])".to_string(),
             },
-            (Plug::Rewrite, None) => {
+            (Plug::Rewrite, None) | (Plug::RewriteCustom(_), None) => {
                 let mut acts = vec![];
                 if text_changed {
                     acts.push(format!("RwText {}", text_coq(&msg.payload_text)));
@@ -1406,11 +1506,13 @@ impl Plugin for Spy {
 /// chain of real decoders (no FileTransfer) observed by Spies: the wrapper models with the observed answers must
 /// reproduce every forwarded message exactly (Exec/C19.v CDec); the frame oracle applies as well
 fn record_dec(sink: &mut Sink, chain: Vec<Plug>, msgs: Vec<DltMessage>, mtags: Vec<&'static str>) {
-    let allow_ts = chain.contains(&Plug::Rewrite);
+    let allow_ts = has_rewrite(&chain);
     let ins = msgs.clone();
     let logs: Vec<Arc<Mutex<Vec<String>>>> = chain.iter().map(|_| Arc::new(Mutex::new(vec![]))).collect();
     let chain2 = chain.clone();
     let logs2 = logs.clone();
+    let shared: Arc<Mutex<Vec<DltMessage>>> = Arc::new(Mutex::new(vec![]));
+    let shared2 = shared.clone();
     let r = catch_loc(std::panic::AssertUnwindSafe(move || {
         let plugins = build_plugins(&chain2)?;
         let n = plugins.len();
@@ -1419,7 +1521,8 @@ fn record_dec(sink: &mut Sink, chain: Vec<Plug>, msgs: Vec<DltMessage>, mtags: V
             .zip(chain2.iter().zip(logs2.iter()))
             .map(|(inner, (kind, log))| Box::new(Spy { kind: kind.clone(), inner, answers: log.clone() }) as Box<dyn Plugin + Send>)
             .collect();
-        let (res, outs) = run_loop(msgs, spies, None);
+        let res = run_loop_into(msgs, spies, &shared2);
+        let outs = shared2.lock().unwrap().clone();
         match res {
             Ok(k) if k == n => Ok(outs),
             Ok(k) => Err(format!("{} of {} plugins returned", k, n)),
@@ -1435,7 +1538,10 @@ fn record_dec(sink: &mut Sink, chain: Vec<Plug>, msgs: Vec<DltMessage>, mtags: V
         tags.push(format!("dec_msg_{}", t));
     }
     let (obs, verdict) = match &r {
-        Err(e) => (O::T(vec![O::L(1)]), fail("decoders_no_panic", e.clone())),
+        Err(e) => {
+            let flagged: Vec<(DltMessage, bool)> = ins.iter().map(|m| (m.clone(), false)).collect();
+            (O::T(vec![O::L(1)]), fail("decoders_no_panic", death_detail(&flagged, &shared, e)))
+        }
         Ok(Err(e)) => (O::T(vec![O::L(2)]), fail("chain_runs", e.clone())),
         Ok(Ok(outs)) => {
             let flagged: Vec<(DltMessage, bool)> = ins.iter().map(|m| (m.clone(), false)).collect();
@@ -1466,7 +1572,7 @@ fn record_dec(sink: &mut Sink, chain: Vec<Plug>, msgs: Vec<DltMessage>, mtags: V
             Plug::SomeIp => format!("DSomeip {}", l),
             Plug::Can => format!("DCan {}", l),
             Plug::Muniic => format!("DMuniic {}", l),
-            Plug::Rewrite => format!("DRewrite true {}", l),
+            Plug::Rewrite | Plug::RewriteCustom(_) => format!("DRewrite true {}", l),
             Plug::FileTransfer(_, _) => panic!("no FileTransfer in dec chains"),
         });
     }
@@ -1988,6 +2094,787 @@ fn gen_scenario_stream(rng: &mut Rng, chain: &[Plug]) -> (Vec<DltMessage>, Vec<&
     (ms, tg)
 }
 
+// ------------------------------------------------------------------------------------------------ text-driven paths
+// What a decoder does with a message is decided by parsing TEXT (Muniic configuration messages, rewrite rules)
+// or the argument list of a verbose payload (SOME/IP segment markers, CAN frames, Muniic MMSG, file transfer).
+// The generators below produce the grammar AROUND each recognised shape: every part present / absent, fields
+// empty / of the wrong class / huge, doubled separators, truncation, parts swapped, the shape twice, junk around it,
+// the right ids with unrelated text and the right text under other ids, repeated and out-of-order configuration
+// messages — and argument lists with arguments dropped / duplicated / swapped / retyped / resized.
+
+/// (literal in front of the field, values the recogniser accepts for the field)
+type Shape = &'static [(&'static str, &'static [&'static str])];
+/// MuniicPlugin::config_regex
+static SH_MUNIIC: Shape = &[
+    ("Version: ", &["20.48", "21.01", "1.0", "12345", "3x7"]),
+    (", git: ", &["123", "abc", "a_1", "0"]),
+    (", model hash: ", &["2874425776", "2944352002", "5", "0", "17"]),
+];
+/// /repo/tests/rewrite.cfg: ^.*? .*? (?<timeStamp>\d+\.\d+) (?<text>.*)$
+static SH_JOUR: Shape = &[
+    ("", &["2024/01/01", "a", "kernel:"]),
+    (" ", &["12:00:00.000000", "b", "-"]),
+    (" ", &["123.456789", "0.5", "99999999.9", "429496.7296", "0.0"]),
+    (" ", &["kernel: text", "x", "two  spaces here", "0.5 1.5"]),
+];
+/// REWRITE_CUSTOM[0]
+static SH_TMSG: Shape = &[("T=", &["1.5", "0", "1e3", "+0.25", "429496.7296", "1e999", "."]), (" msg=", &["hello", "a b", "T=2 msg=x"])];
+/// REWRITE_CUSTOM[1] and [2]
+static SH_PRE: Shape = &[("pre:", &["body 12.5 s", "x", "7"]), (" at ", &["3.25", "0.0001", "12", "99999999.5"])];
+
+fn shape_name(sh: Shape) -> &'static str {
+    if std::ptr::eq(sh, SH_MUNIIC) {
+        "muniic"
+    } else if std::ptr::eq(sh, SH_JOUR) {
+        "jour"
+    } else if std::ptr::eq(sh, SH_TMSG) {
+        "tmsg"
+    } else {
+        "pre"
+    }
+}
+
+#[derive(Clone, Copy, Debug, PartialEq)]
+enum TOp {
+    Good,
+    DropPart(usize),
+    DropLit(usize),
+    DropField(usize),
+    BadField(usize),
+    HugeField(usize),
+    Unicode(usize),
+    ExtraSep(usize),
+    Swap(usize),
+    Case(usize),
+    Truncate,
+    Junk,
+    Twice,
+    Unrelated,
+}
+impl TOp {
+    fn name(&self) -> &'static str {
+        match self {
+            TOp::Good => "good",
+            TOp::DropPart(_) => "part_absent",
+            TOp::DropLit(_) => "literal_absent",
+            TOp::DropField(_) => "field_empty",
+            TOp::BadField(_) => "field_wrong_class",
+            TOp::HugeField(_) => "field_huge",
+            TOp::Unicode(_) => "field_unicode",
+            TOp::ExtraSep(_) => "extra_separator",
+            TOp::Swap(_) => "parts_swapped",
+            TOp::Case(_) => "literal_misspelled",
+            TOp::Truncate => "truncated",
+            TOp::Junk => "junk_around",
+            TOp::Twice => "shape_twice",
+            TOp::Unrelated => "unrelated_text",
+        }
+    }
+}
+
+/// every single variation of a shape (the deterministic family), `ascii`: leave out non-ASCII fields
+fn all_ops(sh: Shape, ascii: bool) -> Vec<TOp> {
+    let mut v = vec![TOp::Good, TOp::Truncate, TOp::Junk, TOp::Twice, TOp::Unrelated];
+    for k in 0..sh.len() {
+        v.extend_from_slice(&[TOp::DropPart(k), TOp::DropLit(k), TOp::DropField(k), TOp::BadField(k), TOp::HugeField(k), TOp::ExtraSep(k), TOp::Case(k)]);
+        if !ascii {
+            v.push(TOp::Unicode(k));
+        }
+        if k + 1 < sh.len() {
+            v.push(TOp::Swap(k));
+        }
+    }
+    v
+}
+
+fn apply_op(rng: &mut Rng, sh: Shape, op: TOp) -> String {
+    let mut parts: Vec<(String, String)> = sh.iter().map(|(l, f)| (l.to_string(), rng.pick(f).to_string())).collect();
+    match op {
+        TOp::Good | TOp::Truncate | TOp::Junk | TOp::Twice | TOp::Unrelated => {}
+        TOp::DropPart(k) => {
+            parts.remove(k);
+        }
+        TOp::DropLit(k) => parts[k].0.clear(),
+        TOp::DropField(k) => parts[k].1.clear(),
+        TOp::BadField(k) => parts[k].1 = rng.pick(&["abc", "-1", "1 2", "0x1f", "1,5", "NaN", "1e5", " 7", "\t", "%s%n", "12.", ".5", "..", "a.b"]).to_string(),
+        TOp::HugeField(k) => {
+            parts[k].1 = match rng.below(4) {
+                0 => "9".repeat(40),
+                1 => format!("{}.{}", "1".repeat(30), "2".repeat(30)),
+                2 => "18446744073709551616".to_string(),
+                _ => "x7".repeat(150),
+            }
+        }
+        TOp::Unicode(k) => parts[k].1 = rng.pick(&["\u{0663}\u{0664}.\u{0665}", "\u{ff11}\u{ff12}", "h\u{00e4}sh", "\u{1d7d8}.\u{1d7d9}", "1\u{2028}2"]).to_string(),
+        TOp::ExtraSep(k) => {
+            let l = parts[k].0.clone();
+            parts[k].0 = match rng.below(4) {
+                0 => l.replace(' ', "  "),
+                1 => l.replace(',', ",,"),
+                2 => format!("{}{}", l, l),
+                _ => format!("{} ", l),
+            };
+        }
+        TOp::Swap(k) => parts.swap(k, k + 1),
+        TOp::Case(k) => {
+            let l = parts[k].0.clone();
+            parts[k].0 = match rng.below(3) {
+                0 => l.to_uppercase(),
+                1 => l.to_lowercase(),
+                _ => l.replace(':', ";").replace('=', ":"),
+            };
+        }
+    }
+    let mut t: String = parts.iter().map(|(l, f)| format!("{}{}", l, f)).collect();
+    match op {
+        TOp::Truncate => {
+            let n = t.chars().count() as u64;
+            let keep = rng.below(n) as usize;
+            t = t.chars().take(keep).collect();
+        }
+        TOp::Junk => {
+            t = match rng.below(5) {
+                0 => format!("xx {}", t),
+                1 => format!("{} yy", t),
+                2 => format!("[{}]", t),
+                3 => format!("line1\n{}\nline3", t),
+                _ => format!("{}\0tail", t),
+            }
+        }
+        TOp::Twice => {
+            let again = apply_op(rng, sh, TOp::Good);
+            t = format!("{} {}", t, again);
+        }
+        TOp::Unrelated => t = rng.pick(&["", " ", "no version here", "Version", "git: 1", "model hash: 3", "1.5", "T= msg=", "pre:", "a b"]).to_string(),
+        _ => {}
+    }
+    t
+}
+
+fn intern(s: String) -> &'static str {
+    static TABLE: Mutex<BTreeMap<String, &'static str>> = Mutex::new(BTreeMap::new());
+    let mut t = TABLE.lock().unwrap();
+    if let Some(x) = t.get(&s) {
+        return x;
+    }
+    let l: &'static str = Box::leak(s.clone().into_boxed_str());
+    t.insert(s, l);
+    l
+}
+
+/// a message that carries `text`: as one string argument, as one string argument per word (payload_as_text joins
+/// the arguments with a blank), as an already present payload_text, or without terminating zero
+fn text_proto(rng: &mut Rng, ecu: u32, ext: Option<(u8, u8, u32, u32)>, text: &str, tag: &'static str) -> Proto {
+    let big = rng.chance(1, 5);
+    let mut p = vec![];
+    let mut noar = 1u8;
+    let mut preset = None;
+    match rng.below(6) {
+        0 | 1 | 2 => arg_str(&mut p, big, text),
+        3 => {
+            let words: Vec<&str> = text.split(' ').collect();
+            if words.len() <= 12 {
+                noar = words.len() as u8;
+                for w in words {
+                    arg_str(&mut p, big, w);
+                }
+            } else {
+                arg_str(&mut p, big, text);
+            }
+        }
+        4 => {
+            arg_str(&mut p, big, "x");
+            preset = Some(text.to_string());
+        }
+        _ => arg_var(&mut p, big, TI_STR | 0x8000, text.as_bytes()),
+    }
+    let mut m = match ext {
+        Some((vmm, _, a, c)) => mk(0, 0, ecu, 0, 0x31 | if big { 2 } else { 0 }, Some((vmm, noar, a, c)), p),
+        None => mk(0, 0, ecu, 0, 0x30 | if big { 2 } else { 0 }, None, p),
+    };
+    m.payload_text = preset;
+    (m, tag)
+}
+
+/// the ids a shape is recognised under (mostly), or ids next to them
+fn shape_ids(rng: &mut Rng, sh: Shape) -> Option<(u8, u8, u32, u32)> {
+    let right = rng.chance(3, 4);
+    let other_a = ch(rng.pick(&APIDS));
+    let other_c = ch(rng.pick(&CTIDS));
+    if std::ptr::eq(sh, SH_MUNIIC) {
+        if right {
+            Some((0x41, 1, ch(rng.pick(&[*b"MUN\0", *b"APP1", *b"SYS\0"])), ch(b"MDLT")))
+        } else {
+            match rng.below(5) {
+                0 => Some((0x41, 1, ch(b"MUN\0"), ch(b"MMSG"))),
+                1 => Some((0x40, 1, ch(b"MUN\0"), ch(b"MDLT"))), // not verbose
+                2 => Some((0x41, 1, ch(b"MDLT"), other_c)),
+                3 => None,
+                _ => Some((0x41, 1, other_a, other_c)),
+            }
+        }
+    } else if right {
+        Some((0x41, 1, ch(b"SYS\0"), ch(b"JOUR")))
+    } else {
+        match rng.below(4) {
+            0 => Some((0x41, 1, ch(b"SYS\0"), other_c)),
+            1 => Some((0x41, 1, other_a, ch(b"JOUR"))),
+            2 => None,
+            _ => Some((0x41, 1, other_a, other_c)),
+        }
+    }
+}
+
+fn muniic_mmsg(rng: &mut Rng, ecu: u32, big: bool) -> Proto {
+    let mut p = vec![];
+    arg_str(&mut p, big, "HmiP");
+    arg_u32(&mut p, big, 5711);
+    arg_u32(&mut p, big, 83029);
+    arg_u32(&mut p, big, 7);
+    arg_u32(&mut p, big, 0);
+    arg_str(&mut p, big, "InitialData...");
+    arg_str(&mut p, big, "[Hmi]");
+    arg_u32(&mut p, big, if rng.chance(5, 6) { 1228779599 } else { 17 });
+    arg_u32(&mut p, big, if rng.chance(5, 6) { 3478824001 } else { 18 });
+    arg_str(&mut p, big, "C/LC:");
+    arg_u8(&mut p, big, 2);
+    arg_u8(&mut p, big, 0);
+    let n = rng.range(0, 2);
+    let d = rand_bytes(rng, n);
+    arg_var(&mut p, big, TI_RAW, &d);
+    proto(ecu, big, (0x41, 13, ch(b"MUN\0"), ch(b"MMSG")), p, "muniic_msg")
+}
+
+// ---- argument lists
+/// one argument of a verbose payload as the arg_* helpers write it: (type info, data, has a 16 bit length field)
+type VArg = (u32, Vec<u8>, bool);
+
+fn parse_vargs(payload: &[u8], big: bool) -> Option<Vec<VArg>> {
+    let mut v = vec![];
+    let mut p = payload;
+    while !p.is_empty() {
+        if p.len() < 4 {
+            return None;
+        }
+        let ti = if big { u32::from_be_bytes(p[0..4].try_into().unwrap()) } else { u32::from_le_bytes(p[0..4].try_into().unwrap()) };
+        p = &p[4..];
+        if ti & (TI_STR | TI_RAW) != 0 {
+            if p.len() < 2 {
+                return None;
+            }
+            let l = if big { u16::from_be_bytes([p[0], p[1]]) } else { u16::from_le_bytes([p[0], p[1]]) } as usize;
+            if p.len() < 2 + l {
+                return None;
+            }
+            v.push((ti, p[2..2 + l].to_vec(), true));
+            p = &p[2 + l..];
+        } else {
+            let l = match ti & 0xf {
+                1 => 1usize,
+                2 => 2,
+                3 => 4,
+                4 => 8,
+                _ => return None,
+            };
+            if p.len() < l {
+                return None;
+            }
+            v.push((ti, p[..l].to_vec(), false));
+            p = &p[l..];
+        }
+    }
+    Some(v)
+}
+
+fn put_vargs(args: &[VArg], big: bool) -> Vec<u8> {
+    let mut p = vec![];
+    for (ti, d, var) in args {
+        if *var {
+            arg_var(&mut p, big, *ti, d);
+        } else {
+            put_ti(&mut p, big, *ti);
+            p.extend_from_slice(d);
+        }
+    }
+    p
+}
+
+/// one change of the argument list of a verbose message; returns what was done
+fn mutate_args(rng: &mut Rng, m: &mut DltMessage) -> Option<&'static str> {
+    let big = m.standard_header.is_big_endian();
+    let verbose = m.extended_header.as_ref().map(|e| e.verb_mstp_mtin & 1 == 1).unwrap_or(false);
+    if !verbose {
+        return None;
+    }
+    let mut args = parse_vargs(&m.payload, big)?;
+    if args.is_empty() {
+        return None;
+    }
+    let k = rng.below(args.len() as u64) as usize;
+    let resize = |d: &[u8], n: usize| -> Vec<u8> {
+        // keeps the numeric value where it fits
+        let mut le: Vec<u8> = if big { d.iter().rev().cloned().collect() } else { d.to_vec() };
+        le.resize(n, 0);
+        if big {
+            le.reverse();
+        }
+        le
+    };
+    let what = match rng.below(12) {
+        0 => {
+            args.remove(k);
+            "arg_dropped"
+        }
+        1 => {
+            let a = args[k].clone();
+            args.insert(k, a);
+            "arg_duplicated"
+        }
+        2 => {
+            if k + 1 < args.len() {
+                args.swap(k, k + 1);
+            } else {
+                args.swap(0, k);
+            }
+            "args_swapped"
+        }
+        3 | 4 => {
+            // another type for the same value
+            let (ti, d, var) = args[k].clone();
+            args[k] = if var {
+                match rng.below(4) {
+                    0 => (if ti & TI_STR != 0 { TI_RAW } else { TI_STR }, d, true),
+                    1 => (ti | 0x8000, d, true), // UTF-8
+                    2 => (TI_U32, resize(&d, 4), false),
+                    _ => (ti | 0x800, d, true), // VARI flag without a name
+                }
+            } else {
+                match rng.below(7) {
+                    0 => (TI_U8, resize(&d, 1), false),
+                    1 => (TI_U16, resize(&d, 2), false),
+                    2 => (0x44, resize(&d, 8), false),
+                    3 => (0x23, resize(&d, 4), false), // SINT 32
+                    4 => (0x23, vec![0xff; 4], false), // negative
+                    5 => (TI_RAW, d, true),
+                    _ => {
+                        let mut s = format!("{}", d.iter().fold(0u64, |a, b| (a << 8) | *b as u64)).into_bytes();
+                        s.push(0);
+                        (TI_STR, s, true)
+                    }
+                }
+            };
+            "arg_retyped"
+        }
+        5 | 6 => {
+            // another length / value
+            let (_, d, var) = &mut args[k];
+            if *var {
+                match rng.below(6) {
+                    0 => d.clear(),
+                    1 => {
+                        d.pop();
+                    }
+                    2 => d.push(0),
+                    3 => d.extend(std::iter::repeat(0x41).take(300)),
+                    4 => d.truncate(1),
+                    _ => d.insert(0, b' '),
+                }
+            } else {
+                let b = *rng.pick(&[0u8, 0xff, 0x80, 1]);
+                for x in d.iter_mut() {
+                    *x = b;
+                }
+            }
+            "arg_resized"
+        }
+        7 => {
+            // selector strings of the plugins with the wrong case / a prefix of them
+            if let Some((_, d, true)) = args.iter_mut().find(|a| a.2 && a.1.len() == 5) {
+                match rng.below(3) {
+                    0 => d.iter_mut().for_each(|x| *x = x.to_ascii_lowercase()),
+                    1 => {
+                        d.remove(3);
+                    }
+                    _ => d[4] = b' ',
+                }
+            }
+            "selector_damaged"
+        }
+        8 => {
+            let e = m.extended_header.as_mut().unwrap();
+            e.noar = e.noar.wrapping_add(*rng.pick(&[1u8, 255, 2]));
+            m.payload = put_vargs(&args, big);
+            return Some("noar_off");
+        }
+        9 => {
+            m.payload = put_vargs(&args, big);
+            let n = m.payload.len() as u64;
+            m.payload.truncate(rng.below(n) as usize);
+            return Some("payload_cut");
+        }
+        10 => {
+            m.standard_header.htyp ^= 2; // the other byte order for the same bytes
+            return Some("endianness_flipped");
+        }
+        _ => {
+            args.push((TI_U32, vec![1, 2, 3, 4], false));
+            "arg_added"
+        }
+    };
+    m.payload = put_vargs(&args, big);
+    m.extended_header.as_mut().unwrap().noar = args.len().min(255) as u8;
+    Some(what)
+}
+
+/// non-verbose payload shapes: message ids the FIBEX of /repo/tests describes for Ecu1 (and unknown ones) with every
+/// payload length around the described byte length, both byte orders, with / without an own extended header;
+/// channel announcements (GET_LOG_INFO responses) cut at every length
+fn nv_session(rng: &mut Rng) -> Vec<Proto> {
+    let mut v = vec![];
+    let big = rng.chance(1, 4);
+    let id: u32 = *rng.pick(&[805312382u32, 805834673, 800000000, 805834674]);
+    let start = rng.below(6);
+    for l in start..start + rng.range(2, 5) {
+        let mut p: Vec<u8> = if big { id.to_be_bytes().to_vec() } else { id.to_le_bytes().to_vec() };
+        let n = l * rng.range(1, 4);
+        p.extend(rand_bytes(rng, n));
+        if rng.chance(1, 6) {
+            p.truncate(rng.below(5) as usize); // not even a message id
+        }
+        let ext = if rng.chance(1, 2) { Some((0x40u8, rng.below(3) as u8, ch(rng.pick(&APIDS)), ch(rng.pick(&CTIDS)))) } else { None };
+        let htyp = 0x30 | if big { 2 } else { 0 } | if ext.is_some() { 1 } else { 0 };
+        v.push((mk(0, 0, if rng.chance(5, 6) { ECU1 } else { ch(rng.pick(&ECUS)) }, 0, htyp, ext, p), "nonverbose_len_sweep"));
+    }
+    if rng.chance(1, 2) {
+        let mut p = vec![];
+        p.extend_from_slice(&if big { 3u32.to_be_bytes() } else { 3u32.to_le_bytes() });
+        p.push(*rng.pick(&[7u8, 6, 8]));
+        let put16 = |p: &mut Vec<u8>, x: u16| p.extend_from_slice(&if big { x.to_be_bytes() } else { x.to_le_bytes() });
+        put16(&mut p, *rng.pick(&[1u16, 0, 2, 0xffff]));
+        p.extend_from_slice(b"CAN\0");
+        put16(&mut p, *rng.pick(&[0u16, 1, 0xffff]));
+        let desc = b"IuK_CAN 431";
+        put16(&mut p, *rng.pick(&[desc.len() as u16, 0, 0xffff, 3]));
+        p.extend_from_slice(desc);
+        let n = p.len() as u64;
+        p.truncate(rng.range(4, n) as usize);
+        v.push(proto(ECU1, big, (0x26, 0, ch(b"CAN\0"), ch(b"TC\0\0")), p, "can_announce_cut"));
+    }
+    v
+}
+
+/// text shapes the plugins of a chain look for (every shape stays a candidate: right text, no plugin for it)
+fn chain_shapes(chain: &[Plug]) -> Vec<Shape> {
+    let mut v: Vec<Shape> = vec![SH_MUNIIC, SH_JOUR, SH_TMSG, SH_PRE];
+    for p in chain {
+        match p {
+            Plug::Muniic => v.extend_from_slice(&[SH_MUNIIC, SH_MUNIIC, SH_MUNIIC, SH_MUNIIC]),
+            Plug::Rewrite => v.extend_from_slice(&[SH_JOUR, SH_JOUR, SH_JOUR]),
+            Plug::RewriteCustom(0) => v.extend_from_slice(&[SH_TMSG, SH_TMSG, SH_TMSG]),
+            Plug::RewriteCustom(_) => v.extend_from_slice(&[SH_PRE, SH_PRE, SH_PRE]),
+            _ => {}
+        }
+    }
+    v
+}
+
+/// index, times, counters of a stream: pairwise different (as in gen_scenario_stream)
+fn finish_protos(rng: &mut Rng, protos: Vec<Proto>) -> (Vec<DltMessage>, Vec<&'static str>) {
+    let mut rt = 1_000_000_000u64 + rng.below(1000);
+    let mut ts = rng.below(100_000) as u32;
+    let mut ms = vec![];
+    let mut tg = vec![];
+    for (i, (mut m, t)) in protos.into_iter().enumerate() {
+        rt += 1 + rng.below(1_000_000);
+        ts = ts.wrapping_add(1 + rng.below(5000) as u32);
+        m.index = 100 + i as u32;
+        m.reception_time_us = rt;
+        m.timestamp_dms = ts;
+        m.standard_header.mcnt = (7 * i + 3) as u8;
+        m.lifecycle = 1 + (i as u32 % 3);
+        ms.push(m);
+        tg.push(t);
+    }
+    (ms, tg)
+}
+
+/// a stream of text-carrying messages around the shapes of the chain's plugins: configuration messages of one or
+/// two ECUs (repeated, changed, out of order) with Muniic data messages between them, rewrite targets, a session of
+/// another plugin with damaged argument lists, a little other traffic.  `only`: every text message uses this
+/// variation (deterministic family), otherwise 1/3 well-formed and 2/3 varied.
+fn gen_text_stream(rng: &mut Rng, chain: &[Plug], only: Option<(Shape, TOp)>, ascii: bool) -> (Vec<DltMessage>, Vec<&'static str>) {
+    let shapes = chain_shapes(chain);
+    let ecus = [if rng.chance(1, 2) { ECU1 } else { ch(rng.pick(&ECUS)) }, ch(rng.pick(&ECUS))];
+    let mut main: Vec<Proto> = vec![];
+    let n = rng.range(2, 6);
+    for i in 0..n {
+        let (sh, op) = match only {
+            Some((sh, op)) if i == 1 || rng.chance(1, 2) => (sh, op),
+            Some((sh, _)) => (sh, TOp::Good),
+            None => {
+                let sh = *rng.pick(&shapes);
+                let ops = all_ops(sh, ascii);
+                (sh, if rng.chance(1, 3) { TOp::Good } else { *rng.pick(&ops) })
+            }
+        };
+        let text = apply_op(rng, sh, op);
+        let ecu = ecus[rng.below(2) as usize];
+        let ids = if only.is_some() && i == 1 {
+            // the variation under the ids the recogniser looks at
+            if std::ptr::eq(sh, SH_MUNIIC) {
+                Some((0x41, 1, ch(b"MUN\0"), ch(b"MDLT")))
+            } else {
+                Some((0x41, 1, ch(b"SYS\0"), ch(b"JOUR")))
+            }
+        } else {
+            shape_ids(rng, sh)
+        };
+        let tag = intern(format!("text_{}_{}", shape_name(sh), op.name()));
+        let mut pr = text_proto(rng, ecu, ids, &text, tag);
+        if !std::ptr::eq(sh, SH_MUNIIC) {
+            // rewrite rules read (and overwrite) an already present text: a `text` group that takes no part clears it
+            if only.is_some() && i == 1 {
+                let mut twin = pr.clone();
+                twin.0.payload_text = Some(text.clone());
+                main.push(twin);
+            } else if rng.chance(1, 3) {
+                pr.0.payload_text = Some(text.clone());
+            }
+        }
+        main.push(pr);
+        if std::ptr::eq(sh, SH_MUNIIC) && rng.chance(1, 2) {
+            let big = rng.chance(1, 5);
+            main.push(muniic_mmsg(rng, ecu, big));
+        }
+    }
+    let mut seqs = vec![main];
+    if rng.chance(1, 2) {
+        // a session of a payload-driven plugin with damaged argument lists
+        let ecu = ecus[0];
+        let mut sess = match rng.below(4) {
+            0 => someip_session(rng, ecu),
+            1 => can_session(rng, ecu),
+            2 => ft_session(rng, ecu),
+            _ => {
+                let big = rng.chance(1, 5);
+                vec![muniic_mmsg(rng, ecu, big), muniic_mmsg(rng, ecu, big)]
+            }
+        };
+        for (m, t) in sess.iter_mut() {
+            if rng.chance(1, 3) {
+                if let Some(w) = mutate_args(rng, m) {
+                    *t = intern(format!("{}_{}", t, w));
+                }
+            }
+        }
+        seqs.push(sess);
+    }
+    if chain.contains(&Plug::NonVerbose) && rng.chance(1, 2) || rng.chance(1, 8) {
+        seqs.push(nv_session(rng));
+    }
+    if rng.chance(1, 3) {
+        // the ids a text recogniser selects on, with a payload that is no text at all: non-verbose / control messages
+        // with 0..5 bytes (payload_as_text reads a message id), verbose messages whose argument list is cut
+        let (a, c) = *rng.pick(&[(ch(b"SYS\0"), ch(b"JOUR")), (ch(b"MUN\0"), ch(b"MDLT")), (ch(b"MUN\0"), ch(b"MMSG"))]);
+        let mut odd = vec![];
+        for _ in 0..rng.range(1, 3) {
+            let vmm = *rng.pick(&[0x40u8, 0x40, 0x26, 0x16, 0x41, 0x41, 0x27]);
+            let mut p = vec![];
+            if vmm & 1 == 1 {
+                arg_str(&mut p, false, "Version: 1.0, git: 1, model hash: 1");
+                arg_u32(&mut p, false, 7);
+            } else {
+                p = rand_bytes(rng, 9);
+            }
+            let n = rng.below(p.len() as u64 + 1).min(if rng.chance(1, 2) { 5 } else { 99 });
+            p.truncate(n as usize);
+            odd.push(proto(ecus[0], false, (vmm, rng.below(3) as u8, a, c), p, "recognised_ids_odd_payload"));
+        }
+        seqs.push(odd);
+    }
+    let mut noise = vec![];
+    for _ in 0..rng.range(0, 2) {
+        noise.push(gen_traffic(rng, 0, 0, 0));
+    }
+    seqs.push(noise);
+    let protos = interleave(rng, seqs);
+    let (mut ms, tg) = finish_protos(rng, protos);
+    for m in ms.iter_mut() {
+        if m.payload_text.is_none() && rng.chance(1, 12) {
+            m.payload_text = Some("already decoded".into());
+        }
+    }
+    (ms, tg)
+}
+
+// ---- Muniic alone: configuration state against Plugins/MuniicCfg.v
+fn cbytes_opt(t: &Option<Vec<u8>>) -> String {
+    match t {
+        Some(b) => format!("(Some {})", cnums(b)),
+        None => "None".to_string(),
+    }
+}
+
+/// the regex literal after `config_regex:` in src/plugins/muniic.rs of the repository under test
+fn muniic_regex_source() -> Vec<u8> {
+    let src = std::fs::read_to_string(format!("{}/src/plugins/muniic.rs", repo_dir())).unwrap_or_default();
+    // the initialiser in from_json (the first occurrence is the field declaration)
+    let from = src.rfind("config_regex:").map(|i| &src[i..]).unwrap_or("");
+    match from.find("Regex::new(").and_then(|j| from[j..].find("r\"").map(|i| i + j)) {
+        Some(i) => {
+            let rest = &from[i + 2..];
+            rest[..rest.find('"').unwrap_or(0)].as_bytes().to_vec()
+        }
+        None => vec![],
+    }
+}
+
+/// model hashes of the JSON configuration (cfg_includes_model_hash)
+fn muniic_known_hashes() -> Vec<Vec<u8>> {
+    let mut v = BTreeSet::new();
+    if let Ok(rd) = std::fs::read_dir(format!("{}/tests/muniic", repo_dir())) {
+        for e in rd.flatten() {
+            if let Ok(j) = serde_json::from_slice::<Value>(&std::fs::read(e.path()).unwrap_or_default()) {
+                if let Some(map) = j["map"].as_object() {
+                    for (_, hashes) in map {
+                        if let Some(h) = hashes.as_object() {
+                            for k in h.keys() {
+                                v.insert(k.as_bytes().to_vec());
+                            }
+                        }
+                    }
+                }
+            }
+        }
+    }
+    v.into_iter().collect()
+}
+
+/// (labels of "Configs received per ECU" sorted, warnings, generation) of the plugin state
+fn muniic_state(state: &Arc<RwLock<PluginState>>) -> (Vec<Vec<u8>>, Vec<Vec<u8>>, u32) {
+    let st = state.read().unwrap_or_else(|e| e.into_inner());
+    let mut labels: Vec<Vec<u8>> = st.value["treeItems"][2]["children"]
+        .as_array()
+        .map(|a| a.iter().map(|c| c["label"].as_str().unwrap_or("").as_bytes().to_vec()).collect())
+        .unwrap_or_default();
+    labels.sort();
+    let warns = st.value["warnings"].as_array().map(|a| a.iter().map(|w| w.as_str().unwrap_or("").as_bytes().to_vec()).collect()).unwrap_or_default();
+    (labels, warns, st.generation)
+}
+
+/// The Muniic plugin alone.  Besides the frame oracle, the plugin's configuration state (per-ECU table, warnings,
+/// generation) after the run is compared with the model's, which runs its own matcher for the regex of the source
+/// on the text of every configuration message.  Returns false when a text is not ASCII (no case recorded).
+fn record_mcfg(sink: &mut Sink, msgs: Vec<DltMessage>, mtags: Vec<&'static str>) -> bool {
+    let is_c = |m: &DltMessage, c: &[u8; 4]| m.extended_header.as_ref().map(|e| e.ctid == DltChar4::from_buf(c)).unwrap_or(false);
+    // what the plugin reads of each message
+    let mut infos: Vec<(Vec<u8>, Vec<u8>, Option<Vec<u8>>)> = vec![];
+    for m in &msgs {
+        let pt = if is_c(m, b"MDLT") || is_c(m, b"MMSG") {
+            let m2 = m.clone();
+            match catch(std::panic::AssertUnwindSafe(move || m2.payload_as_text().map(|c| c.into_owned()))) {
+                Ok(Ok(t)) => Some(t.into_bytes()),
+                _ => None,
+            }
+        } else {
+            None
+        };
+        if let Some(t) = &pt {
+            if !t.is_ascii() {
+                return false;
+            }
+        }
+        infos.push((format!("{}", m.ecu).into_bytes(), format!("{:?}", m.ecu).into_bytes(), pt));
+    }
+    let ins: Vec<(DltMessage, bool)> = msgs.iter().map(|m| (m.clone(), false)).collect();
+    let shared: Arc<Mutex<Vec<DltMessage>>> = Arc::new(Mutex::new(vec![]));
+    let shared2 = shared.clone();
+    let state_slot: Arc<Mutex<Option<Arc<RwLock<PluginState>>>>> = Arc::new(Mutex::new(None));
+    let slot2 = state_slot.clone();
+    let before: Arc<Mutex<(Vec<Vec<u8>>, u32)>> = Arc::new(Mutex::new((vec![], 0)));
+    let before2 = before.clone();
+    let r = catch_loc(std::panic::AssertUnwindSafe(move || {
+        let plugins = build_plugins(&[Plug::Muniic])?;
+        let st = plugins[0].state();
+        let (_, w0, g0) = muniic_state(&st);
+        *before2.lock().unwrap() = (w0, g0);
+        *slot2.lock().unwrap() = Some(st);
+        match run_loop_into(msgs, plugins, &shared2) {
+            Ok(1) => Ok(()),
+            Ok(k) => Err(format!("{} of 1 plugins returned", k)),
+            Err(_) => Err("outflow error".to_string()),
+        }
+    }));
+    let fail = |c: &str, d: String| Verdict::Fail { clause: c.into(), detail: d };
+    let outs = shared.lock().unwrap_or_else(|e| e.into_inner()).clone();
+    let (warns0, gen0) = before.lock().unwrap().clone();
+    let (labels, warns, gen) = match state_slot.lock().unwrap().as_ref() {
+        Some(st) => muniic_state(st),
+        None => (vec![], vec![], 0),
+    };
+    let mut tags = vec!["mcfg".to_string()];
+    for t in mtags.iter().collect::<BTreeSet<_>>() {
+        tags.push(format!("mcfg_msg_{}", t));
+    }
+    tags.push(format!("mcfg_table_entries{}", labels.len().min(3)));
+    if warns.len() > warns0.len() {
+        tags.push("mcfg_warning_raised".into());
+    }
+    let (dead, verdict) = match &r {
+        Err(e) => (1u64, fail("decoders_no_panic", death_detail(&ins, &shared, e))),
+        Ok(Err(e)) => (2, fail("chain_runs", e.clone())),
+        Ok(Ok(())) => (0, frame_oracle(false, &ins, &outs)),
+    };
+    if mtags.len() == ins.len() {
+        let plain: Vec<DltMessage> = ins.iter().map(|x| x.0.clone()).collect();
+        scenario_tags(&plain, &mtags, &outs, &mut tags);
+    }
+    let obs = O::T(vec![
+        O::T(outs.iter().map(msg_obs).collect()),
+        O::n(dead),
+        O::T(labels.iter().map(|l| O::bytes(l)).collect()),
+        O::T(warns.iter().map(|l| O::bytes(l)).collect()),
+        O::n(gen),
+    ]);
+    // answers of the MMSG decoding, read off the forwarded messages
+    let entries: Vec<String> = ins
+        .iter()
+        .zip(infos.iter())
+        .map(|((m, _), (disp, dbg, pt))| {
+            let ans = match outs.iter().find(|o| o.index == m.index) {
+                Some(o) if o.payload_text != m.payload_text => match &o.payload_text {
+                    Some(t) => format!("(TSet {})", cnums(t.as_bytes())),
+                    None => "TNone".to_string(),
+                },
+                _ => "TNone".to_string(),
+            };
+            format!("({}, MI {} {} {} {})", msg_coq(m), ans, cnums(disp), cnums(dbg), cbytes_opt(pt))
+        })
+        .collect();
+    let known = muniic_known_hashes();
+    let input_coq = format!(
+        "(CMcfg {} {} {} {} {})",
+        cnums(&muniic_regex_source()),
+        clist(&known.iter().map(|k| cnums(k)).collect::<Vec<_>>()),
+        clist(&warns0.iter().map(|k| cnums(k)).collect::<Vec<_>>()),
+        gen0,
+        clist(&entries)
+    );
+    let id = sink.next_id();
+    sink.push(Case {
+        id,
+        key: input_coq.clone(),
+        input_coq,
+        input_json: json!({"v": "mcfg", "msgs": ins.iter().map(|(m, _)| msg_json(m)).collect::<Vec<_>>()}),
+        obs,
+        verdict,
+        classes: vec![],
+        tags,
+        nontrivial: ins.len() >= 3,
+    });
+    true
+}
+
 // ------------------------------------------------------------------------------------------------ main
 fn witness_ctrl_short() -> DltMessage {
     // DESIGN Appendix A C03-1: verbose control response, noar 1, payload = one bool argument
@@ -2086,6 +2973,12 @@ fn replay(sink: &mut Sink, c: &Value) {
             record_dec(sink, chain, msgs(c), vec![]);
         }
         "equiv" => record_equiv(sink, msgs(c)),
+        "mcfg" => {
+            let ms = msgs(c);
+            if !record_mcfg(sink, ms.clone(), vec![]) {
+                record_dec(sink, vec![Plug::Muniic], ms, vec![]);
+            }
+        }
         x => panic!("unknown case kind {}", x),
     }
 }
@@ -2294,6 +3187,60 @@ fn main() {
         let n = rng.range(2, 40);
         let ms = gen_lc_stream(&mut rng, n);
         record_equiv(&mut sink, ms);
+    }
+
+    // ---- text-driven paths of the decoders (own random streams: the cases above stay what they were)
+    {
+        // deterministic family: every single variation of every shape, through the plugin it is meant for alone
+        // (Muniic: with the configuration state compared) and inside a full chain
+        let mut rf = Rng::new(4714);
+        let targets: [(Shape, Plug); 5] =
+            [(SH_MUNIIC, Plug::Muniic), (SH_JOUR, Plug::Rewrite), (SH_TMSG, Plug::RewriteCustom(0)), (SH_PRE, Plug::RewriteCustom(1)), (SH_PRE, Plug::RewriteCustom(2))];
+        for (sh, plug) in targets.iter() {
+            for (k, op) in all_ops(sh, false).into_iter().enumerate() {
+                let alone = vec![plug.clone()];
+                let ascii = *plug == Plug::Muniic && !matches!(op, TOp::Unicode(_));
+                let (ms, tg) = gen_text_stream(&mut rf, &alone, Some((sh, op)), ascii);
+                if !(ascii && record_mcfg(&mut sink, ms.clone(), tg.clone())) {
+                    record_dec(&mut sink, alone, ms, tg);
+                }
+                let rw = if matches!(plug, Plug::RewriteCustom(_)) { plug.clone() } else { Plug::Rewrite };
+                let full = vec![Plug::NonVerbose, Plug::SomeIp, Plug::FileTransfer(k % 2 == 0, true), Plug::Can, Plug::Muniic, rw];
+                let (ms, tg) = gen_text_stream(&mut rf, &full, Some((sh, op)), false);
+                record_frame(&mut sink, full, ms, tg);
+            }
+        }
+        // generated
+        let mut rt = Rng::new(a.seed ^ 0x7E47_0C19);
+        for k in 0..(150 * scale) {
+            let mut chain = gen_chain(&mut rt, k);
+            for p in chain.iter_mut() {
+                if *p == Plug::Rewrite && rt.chance(1, 3) {
+                    *p = Plug::RewriteCustom(rt.below(3) as u8);
+                }
+            }
+            if !chain.contains(&Plug::Muniic) && !has_rewrite(&chain) {
+                chain.push(if rt.chance(1, 2) { Plug::Muniic } else { Plug::RewriteCustom(rt.below(3) as u8) });
+            }
+            match k % 3 {
+                0 => {
+                    let (ms, tg) = gen_text_stream(&mut rt, &chain, None, false);
+                    record_frame(&mut sink, chain, ms, tg);
+                }
+                1 => {
+                    chain.retain(|p| !matches!(p, Plug::FileTransfer(_, _)));
+                    let (ms, tg) = gen_text_stream(&mut rt, &chain, None, false);
+                    record_dec(&mut sink, chain, ms, tg);
+                }
+                _ => {
+                    let alone = vec![Plug::Muniic];
+                    let (ms, tg) = gen_text_stream(&mut rt, &alone, None, true);
+                    if !record_mcfg(&mut sink, ms.clone(), tg.clone()) {
+                        record_dec(&mut sink, alone, ms, tg);
+                    }
+                }
+            }
+        }
     }
     sink.finish();
 }
